@@ -29,6 +29,26 @@
 
 
 /*
+ * discard_partial_load: empty the object after a failed load
+ *   @vdip: internal parameter matrix
+ *
+ * The loaders fill the caller's object while they parse.  When the file
+ * turns out to be bad, don't leave the part that was read behind.
+ */
+static void discard_partial_load(vnadata_internal_t *vdip)
+{
+    vnaerr_error_fn_t *saved_error_fn = vdip->vdi_error_fn;
+    const int saved_errno = errno;
+
+    vdip->vdi_error_fn = NULL;		/* the failure has been reported */
+    (void)vnadata_resize(&vdip->vdi_vd, VPT_UNDEF, 0, 0, 0);
+    (void)vnadata_set_all_z0(&vdip->vdi_vd, VNADATA_DEFAULT_Z0);
+    (void)vnadata_set_format(&vdip->vdi_vd, NULL);
+    vdip->vdi_error_fn = saved_error_fn;
+    errno = saved_errno;
+}
+
+/*
  * vnadata_load_common: load network parameters from a file
  *   @vdip:   internal parameter matrix
  *   @fp: file pointer
@@ -65,6 +85,7 @@ static int vnadata_load_common(vnadata_internal_t *vdip,
 	 * match actual ports, except allow .s2p as wild.
 	 */
 	if (_vnadata_load_touchstone(vdip, fp, filename) == -1) {
+	    discard_partial_load(vdip);
 	    return -1;
 	}
 	if (filename_ports != -1 && filename_ports != 2 &&
@@ -80,6 +101,7 @@ static int vnadata_load_common(vnadata_internal_t *vdip,
 	 * Load native NPD format.
 	 */
 	if (_vnadata_load_npd(vdip, fp, filename) == -1) {
+	    discard_partial_load(vdip);
 	    return -1;
 	}
 	break;
